@@ -1,9 +1,9 @@
 /-
-  Lungo.Proofs.ConcNoDeadlock — with unshared sessions, some non-fault step is always enabled
+  Lungo.Proofs.ConcNoDeadlock — (sessions may be shared) some non-fault step is always enabled
   unless every unfinished actor waits for the token that a client deliberately holds.
 -/
 import Lungo.Proofs.ConcProgress
-import Lungo.Proofs.ConcUnshared
+import Lungo.Proofs.ConcHolder
 namespace Lungo.Conc
 
 /-- labels that are not faults, not timeouts, not new calls and not ticker events -/
@@ -29,20 +29,23 @@ macro "en_tac" c:term : tactic => `(tactic| (
     stepClose, stepExp]
   (try split) <;> (try split) <;> (try split) <;> (try split) <;> simp_all))
 
-/-- an actor that is neither parked nor in `Close`'s wait nor inside an `e.mutex` section can step -/
-theorem local_enabled {n : Nat} {s : State} {a : ActorId} (h : ReachableU n s)
+/-- control points at which the actor waits for a session mutex -/
+def SWait (pc : Pc) : Prop :=
+  pc = .uSessLock ∨ pc = .bSessLock ∨ pc = .ssLock ∨ pc = .ssRelock ∨ pc = .scLock ∨ pc = .saLock
+
+/-- an actor that is neither parked, nor in `Close`'s wait, nor waiting for a session mutex, nor
+    inside an `e.mutex` section (the engine mutex is free) can take a non-fault step -/
+theorem local_enabled {n : Nat} {s : State} {a : ActorId} (h : Reachable n s)
     (hm : s.eng.mutex = none) (hle : ¬ a > s.n)
-    (hp : ¬ Parked (s.loc a).pc) (hw : (s.loc a).pc ≠ .clWait) :
+    (hp : ¬ Parked (s.loc a).pc) (hw : (s.loc a).pc ≠ .clWait) (hsw : ¬ SWait (s.loc a).pc) :
     ∃ c, Progress c ∧ (step s a c).isSome = true := by
-  obtain ⟨i, j⟩ := inv_reachable h.reachable
+  obtain ⟨i, j⟩ := inv_reachable h
   have he := (i.mutex_iff a)
   rw [hm] at he
   have lw := j.lwf a
   simp only [LWf] at lw
-  have u := uinv_reachable h a
-  have hfree := own_smutex_free (a := a) h
-  simp only [SHold] at hfree
   simp only [Parked] at hp
+  simp only [SWait] at hsw
   simp only [EHold] at he
   cases hpc : (s.loc a).pc
   all_goals (first | (exfalso; simp_all; done) | skip)
@@ -56,14 +59,12 @@ theorem local_enabled {n : Nat} {s : State} {a : ActorId} (h : ReachableU n s)
     refine ⟨.go, by simp [Progress], ?_⟩
     simp only [step, hle, if_false, hpc, stepAfter]
     cases (s.loc a).k <;> simp <;> (try split) <;> (try split) <;> simp
-  case uSessLock =>
+  case bSessRead =>
     have hc := lw.2.1 (by simp [hpc])
     obtain ⟨sid, hsid⟩ := Option.isSome_iff_exists.mp hc
-    have hsa : sid = a := u.1 sid hsid
-    subst hsa
-    have := hfree (by simp [hpc])
     refine ⟨.go, by simp [Progress], ?_⟩
-    simp [step, hle, hpc, stepUse, hsid, this]
+    simp only [step, hle, if_false, hpc, stepBegin, hsid]
+    split <;> simp
   case uSessRead =>
     have hc := lw.2.1 (by simp [hpc])
     obtain ⟨sid, hsid⟩ := Option.isSome_iff_exists.mp hc
@@ -90,22 +91,6 @@ theorem local_enabled {n : Nat} {s : State} {a : ActorId} (h : ReachableU n s)
     obtain ⟨t, ht⟩ := Option.isSome_iff_exists.mp hc
     refine ⟨.cbNoop, by simp [Progress], ?_⟩
     simp [step, hle, hpc, stepExp, ht]
-  case ssLock =>
-    have := hfree (by simp [hpc])
-    refine ⟨.go, by simp [Progress], ?_⟩
-    simp [step, hle, hpc, stepSess, u.2, this]
-  case ssRelock =>
-    have := hfree (by simp [hpc])
-    refine ⟨.go, by simp [Progress], ?_⟩
-    simp [step, hle, hpc, stepSess, u.2, this]
-  case scLock =>
-    have := hfree (by simp [hpc])
-    refine ⟨.go, by simp [Progress], ?_⟩
-    simp [step, hle, hpc, stepSess, u.2, this]
-  case saLock =>
-    have := hfree (by simp [hpc])
-    refine ⟨.go, by simp [Progress], ?_⟩
-    simp [step, hle, hpc, stepSess, u.2, this]
   case ssReserve =>
     refine ⟨.go, by simp [Progress], ?_⟩
     simp only [step, hle, if_false, hpc, stepSess]
@@ -126,11 +111,58 @@ theorem local_enabled {n : Nat} {s : State} {a : ActorId} (h : ReachableU n s)
     refine ⟨.go, by simp [Progress], ?_⟩
     simp [step, hle, hpc, stepClose]
 
-theorem no_deadlock_aux {n : Nat} {s : State} (h : ReachableU n s)
+/-- the session an actor at a session-lock wait wants -/
+def wantS (l : Local) : SessId :=
+  if l.pc = .uSessLock ∨ l.pc = .bSessLock then l.ctxSess.getD 0 else l.sid
+
+/-- an actor waiting for a session mutex: either the mutex is free and it proceeds, or the holder
+    (which never waits for a session mutex itself, and `e.mutex` is free) proceeds -/
+theorem swait_progress {n : Nat} {s : State} {a : ActorId} (h : Reachable n s)
+    (hm : s.eng.mutex = none) (hle : ¬ a > s.n) (hsw : SWait (s.loc a).pc) : CanStep s := by
+  obtain ⟨i, j⟩ := inv_reachable h
+  have lw := j.lwf a
+  simp only [LWf] at lw
+  cases hmx : (s.sess (wantS (s.loc a))).mutex with
+  | none =>
+    refine ⟨a, .go, by simp [Progress], ?_⟩
+    simp only [SWait] at hsw
+    rcases hsw with hpc | hpc | hpc | hpc | hpc | hpc
+    · have hc := lw.2.1 (by simp [hpc])
+      obtain ⟨sid, hsid⟩ := Option.isSome_iff_exists.mp hc
+      simp [wantS, hpc, hsid] at hmx
+      simp [step, hle, hpc, stepUse, hsid, hmx]
+    · have hc := lw.2.1 (by simp [hpc])
+      obtain ⟨sid, hsid⟩ := Option.isSome_iff_exists.mp hc
+      simp [wantS, hpc, hsid] at hmx
+      simp [step, hle, hpc, stepBegin, hsid, hmx]
+    · simp [wantS, hpc] at hmx
+      simp [step, hle, hpc, stepSess, hmx]
+    · simp [wantS, hpc] at hmx
+      simp [step, hle, hpc, stepSess, hmx]
+    · simp [wantS, hpc] at hmx
+      simp [step, hle, hpc, stepSess, hmx]
+    · simp [wantS, hpc] at hmx
+      simp [step, hle, hpc, stepSess, hmx]
+  | some b =>
+    have hb := (i.smutex_iff b _).1 hmx
+    have hbn : ¬ b > s.n := by
+      intro hgt
+      have := j.rng b hgt
+      simp [SHold, this] at hb
+    have hbp : ¬ Parked (s.loc b).pc := by
+      simp only [SHold] at hb; simp only [Parked]; grind
+    have hbw : (s.loc b).pc ≠ .clWait := by
+      simp only [SHold] at hb; grind
+    have hbs : ¬ SWait (s.loc b).pc := by
+      simp only [SHold] at hb; simp only [SWait]; grind
+    obtain ⟨c, hc, hs⟩ := local_enabled h hm hbn hbp hbw hbs
+    exact ⟨b, c, hc, hs⟩
+
+theorem no_deadlock_aux {n : Nat} {s : State} (h : Reachable n s)
     (hun : ∃ a, (s.loc a).pc ≠ .idle ∧ (s.loc a).pc ≠ .xWait ∧ (s.loc a).pc ≠ .xExited) :
     CanStep s ∨ TokenWait s := by
-  obtain ⟨i, j⟩ := inv_reachable h.reachable
-  obtain ⟨x1, x2, x3⟩ := xinv_reachable h.reachable
+  obtain ⟨i, j⟩ := inv_reachable h
+  obtain ⟨x1, x2, x3⟩ := xinv_reachable h
   have hrange : ∀ a, (s.loc a).pc ≠ .idle → ¬ a > s.n := fun a hp hgt => hp (j.rng a hgt)
   cases hm : s.eng.mutex with
   | some b =>
@@ -142,8 +174,10 @@ theorem no_deadlock_aux {n : Nat} {s : State} (h : ReachableU n s)
     · obtain ⟨a, hp, hw⟩ := hex
       left
       have hle : ¬ a > s.n := hrange a (fun hi => hp (Or.inl hi))
-      obtain ⟨c, hc, hs⟩ := local_enabled h hm hle hp hw
-      exact ⟨a, c, hc, hs⟩
+      by_cases hsw : SWait (s.loc a).pc
+      · exact swait_progress h hm hle hsw
+      · obtain ⟨c, hc, hs⟩ := local_enabled h hm hle hp hw hsw
+        exact ⟨a, c, hc, hs⟩
     · have hall : ∀ a, Parked (s.loc a).pc ∨ (s.loc a).pc = .clWait := by
         intro a
         by_cases hp : Parked (s.loc a).pc
